@@ -35,9 +35,10 @@ RULE = ('case = (object configs (reentrant?, constructor timeout), fault script,
         'double injections; random longer sequences.  non-trivial (decided in Coq): >= 3 observed calls with a '
         'successful acquire and either a refusal or a second success.  Context managers entered through acquire_ctx() / '
         'with are left alternately normally and through an exception (__exit__(ValueError, ...)): both must do the same '
-        'release().  Unlock / close faults also come in a KeyboardInterrupt flavour (a BaseException that is not an '
-        'Exception; driver only: the library handles it like the OSError at these sites, so the model replays it as the '
-        'same fault).')
+        'release().  Every fault (open / flock / unlock / close) also comes in a KeyboardInterrupt flavour (a BaseException '
+        'that is not an Exception; (kind, n, \'ki\') in the driver, flavour bit of the model\'s fault script): at unlock / '
+        'close the library handles it like the OSError; at flock it must close the descriptor, clean up and re-raise '
+        '(F9), at open clean up and re-raise - the model replays exactly that and the fd-count clause judges it.')
 EXHAUSTIVE_NOTE = ('all canonical contract-respecting shapes of length <= 4 (quick) / <= 5 (thorough) over 12 letters; '
                    'single-fault injection at every syscall index for shapes of length <= 3 (quick: every second shape) / <= 4')
 ASSUMPTIONS = ['kernel flock(2): exclusive per open file description, released by LOCK_UN / close (checked on every '
@@ -339,10 +340,13 @@ def distribution(cases, obs):
     return d
 
 
-LEVEL_TEXT = ('FileLock (acquire / acquire_ctx / with / release / release(force), Lock and RLock flavour, OSError script) is '
+LEVEL_TEXT = ('FileLock (acquire / acquire_ctx / with / release / release(force) / __del__, Lock and RLock flavour, fault script '
+              'of (syscall kind, index, flavour OSError | KeyboardInterrupt)) is '
               'modelled step for step (coq/theories/FLock.v); do_call runs one call to completion with its thread alone '
               '(virtual time).  props/C12.v proves (lemmas: FLockAcq.v phase invariant of a running acquire, FLockRel.v, '
-              'FLockTerm.v termination measure, FLockSeq.v): for EVERY reachable state and EVERY fault script '
+              'FLockTerm.v termination measure, FLockExec.v step equations, FLockContract.v, FLockSeq.v refinement, FLockMon12.v / '
+              'FLockSound.v monitors): for EVERY reachable state and EVERY fault script of both flavours (so also an interrupt '
+              'inside flock / open: descriptor closed, clean-up, re-raise - fix F9) '
               'fail_no_residue (a failing acquire - False / TimeoutError / re-raised OSError - leaves every object, the table '
               'of open descriptors and the kernel holder exactly as before, caller idle and not inside), '
               'nonblocking_immediate (no virtual time passes, never blocks), timed_bound (elapsed <= T + T + poll, never '
@@ -350,14 +354,17 @@ LEVEL_TEXT = ('FileLock (acquire / acquire_ctx / with / release / release(force)
               'lock not held through it, even if unlock/close raise); and for sequences of calls without scripted faults '
               'refines_rlock_spec (from the initial state of the correspondence runs, every contract-respecting sequence by any '
               'threads on any objects gives exactly the results of the abstract Lock/RLock spec FLockSpec.v, and the final '
-              'state represents the spec state: is_locked iff held, counter = RLock depth, thread lock free iff unheld) with '
+              'state represents the spec state: is_locked iff held, counter = RLock depth, thread lock free iff unheld), '
+              'refines_rlock_spec_procs (the same from any initial configuration with objects and threads in any number of '
+              'processes, calls on own-process objects: still ONE lock) with '
               'the corollaries acquire_true_iff_holds, reacquire_after_release (F6), nonreentrant_refuses_second_acquire, '
-              'only_outermost_release_frees, and monitor_complete (Case_C12.ok accepts the model\'s own trace of every '
-              'contract-respecting fault-free sequence).  Tied to /repo by differential correspondence on enumerated and random call '
+              'only_outermost_release_frees, monitor_complete (Case_C12.ok accepts the model\'s own trace of every '
+              'contract-respecting fault-free sequence) and monitor_sound (model-free: an accepted, clean, contract-respecting '
+              'observed list conforms to FLockSpec step by step - result, is_locked, fd count, time clause, probes).  Tied to /repo by differential correspondence on enumerated and random call '
               'sequences with fault injection, evaluated by vm_compute.')
 LEVEL_NOTE = ('trusted: Coq kernel + vm_compute; no axioms; kernel flock semantics and threading.Lock/RLock are modelled '
-              'primitives (assumption, checked against the shim table on every run); the refinement theorem is about one '
-              'process, no scripted faults, timed acquires with poll >= 1 and fuel >= 5*((T+poll)/poll)+16 per acquire (proved '
+              'primitives (assumption, checked against the shim table on every run); the refinement theorems are about '
+              'sequential calls (one call at a time, any threads / objects / processes), no scripted faults, timed acquires with poll >= 1 and fuel >= 5*((T+poll)/poll)+16 per acquire (proved '
               'sufficient); the four every-fault-script theorems are about all reachable states incl. several processes; '
               'contract: a thread releases only a lock it holds or an unheld one (ok_calls)')
 TECHNIQUE = 'Coq proof (refinement of an abstract lock spec by a small-step model, big-step do_call, phase invariant + termination measure) + differential correspondence evaluated by vm_compute'
